@@ -755,6 +755,43 @@ pub fn c10_exhaustive_size() -> usize {
 }
 
 pub fn gen_c10(r: &mut Rng, id: usize, thorough: bool) -> Group {
+    if !(thorough && id < c10_exhaustive_size()) && r.chance(8) {
+        // rows are compared on their SELECTED values: selections that read more than the current input (the ordinal, the
+        // enclosing record after --split-by) make rows with equal inputs different — and runs of equal inputs are the rule here
+        let mut c = case(format!("C10-{id}-ctx"));
+        c.spec.unique = true;
+        let small = ["1", "2", "\"a\"", "[1]", "null"];
+        let mut text = String::new();
+        if r.chance(50) {
+            for _ in 0..r.range(2, 12) {
+                let v = r.pick(&small);
+                for _ in 0..r.range(1, 3) {
+                    text.push_str(v);
+                    text.push('\n');
+                }
+            }
+            c.spec.selects.push(r.ps(&["&index=i", "&index-in-file=i", "(+ &index 1)=i"]).to_string());
+            c.spec.selects.push(".=v".into());
+        } else {
+            for i in 0..r.range(2, 6) {
+                let items: Vec<&str> = (0..r.range(1, 4)).map(|_| *r.pick(&small)).collect();
+                let items: Vec<&str> = items.iter().flat_map(|x| std::iter::repeat(*x).take(r.range(1, 2))).collect();
+                text.push_str(&format!("{{\"id\":{},\"l\":[{}]}}\n", i % 2 + r.below(2), items.join(",")));
+            }
+            c.spec.split = Some(".l".into());
+            c.spec.selects.push("^.id=p".into());
+            c.spec.selects.push(".=v".into());
+        }
+        c.sources.push(stdin_src(text.into_bytes()));
+        let mut twin = c.clone();
+        twin.id = format!("{}-nounique", twin.id);
+        twin.spec.unique = false;
+        let mut g = Group::new(vec![c, twin]);
+        g.tag = "ctx-unique".into();
+        g.nontrivial = true;
+        g.labels.push("kind:ctx-unique".into());
+        return g;
+    }
     let forced: Option<(usize, usize)> = if thorough && id < c10_exhaustive_size() { Some((id / C10_POOL_SIZE, id % C10_POOL_SIZE)) } else { None };
     // universe with many repeats and numerically equal spellings; serialised with spelling variety
     let spell_pool: &[&str] = &["1", "1.0", "1e0", "10e-1", "2", "2.0", "\"a\"", "\"\\u0061\"", "\"b\"", "null", "true", "[1,2]", "[1.0,2]", "[1, 2]", "{\"a\":1}", "{\"a\":1.0}", "{\"a\": 1}",
@@ -898,7 +935,37 @@ pub fn gen_c11(r: &mut Rng, id: usize) -> Group {
     };
     let a = if special { let n_ = r.range(1, 8); gen_c11_parent_rows(r, n_) } else if long { let n_ = r.range(30, 120); long_rows(r, n_) } else { let n_ = r.range(0, 20); gen_rows(r, n_, &u) };
     let b = if special { let n_ = r.range(1, 8); gen_c11_parent_rows(r, n_) } else if long { let n_ = r.range(30, 120); long_rows(r, n_) } else { let n_ = r.range(0, 20); gen_rows(r, n_, &u) };
-    let spec = if special {
+    // records that SHARE their parts (the same list, the same subject string) but differ in what the expressions read from the
+    // enclosing record: a value computed for a part of one record must not be reused for the equal part of another
+    let ctxdep = !special && !long && r.chance(14);
+    let ctx_rows = |r: &mut Rng, n: usize| -> Vec<V> {
+        (0..n).map(|_| V::Obj(vec![
+            ("k".into(), V::Int(r.below(4) as i128)),
+            ("sign".into(), V::Int(if r.chance(50) { 1 } else { -1 })),
+            ("l".into(), V::Arr(vec![V::Int(1), V::Int(2), V::Int(3), V::Int(2)])),
+            ("s".into(), V::Str(r.ps(&["abc", "xb", "a1"]).into())),
+            ("p".into(), V::Str(r.ps(&["^a", "b$", "[0-9]", "c"]).into())),
+        ])).collect()
+    };
+    let (a, b) = if ctxdep { let na = r.range(1, 5); let nb = r.range(1, 5); (ctx_rows(r, na), ctx_rows(r, nb)) } else { (a, b) };
+    let spec = if ctxdep {
+        let mut s = Spec::default();
+        s.sets.push("@addk=(+ . ^.k)".into());
+        s.sets.push("@cmp=(> . ^.k)".into());
+        let pool = ["(map .l (+ . ^.k))", "(filter .l (> . ^.k))", "(sort_by .l (* . ^.sign))", "(match .s .p)", "(map .l @addk)", "(filter .l @cmp)",
+                    "(group_by .l (stringify (> . ^.k)))", "(map .l (| . (+ . ^^^.k)))", "(extract_regex_group .s .p 0)"];
+        if r.chance(30) {
+            s.split = Some(".l".into());
+            s.selects.push("(+ . ^.k)=x".into());
+            s.selects.push("@addk=y".into());
+            s.selects.push("(* . ^.sign)=z".into());
+        } else {
+            for j in 0..r.range(2, 4) {
+                s.selects.push(format!("{}=c{j}", r.pick(&pool)));
+            }
+        }
+        s
+    } else if special {
         let mut s = Spec::default();
         match r.below(3) {
             0 => {
@@ -919,9 +986,23 @@ pub fn gen_c11(r: &mut Rng, id: usize) -> Group {
     } else {
         stateless_spec(r)
     };
+    // what the regex crate says about every (subject, pattern) of these records: handed to the model as facts
+    let mut facts: Vec<(String, Vec<String>, Option<String>)> = vec![];
+    if ctxdep {
+        let q = |t: &str| format!("\"{t}\"");
+        for sj in ["abc", "xb", "a1"] {
+            for pt in ["^a", "b$", "[0-9]", "c"] {
+                let re = regex::Regex::new(pt).unwrap();
+                facts.push(("match".into(), vec![q(sj), q(pt)], Some(if re.is_match(sj) { "true".into() } else { "false".into() })));
+                let g0 = re.captures(sj).and_then(|c| c.get(0).map(|m| q(m.as_str())));
+                facts.push(("extract_regex_group".into(), vec![q(sj), q(pt), "0".into()], g0));
+            }
+        }
+    }
     let mk = |name: &str, rows: &[V], r: &mut Rng| {
         let mut c = case(format!("C11-{id}-{name}"));
         c.spec = spec.clone();
+        c.orc = facts.clone();
         let (bytes, _) = stream_of(r, rows, false);
         let mut bytes = bytes;
         if !bytes.is_empty() {
@@ -942,6 +1023,9 @@ pub fn gen_c11(r: &mut Rng, id: usize) -> Group {
     g.labels.push(format!("style:{}", spec.style.clone().unwrap_or("json".into())));
     if long {
         g.labels.push("kind:long-stream".into());
+    }
+    if ctxdep {
+        g.labels.push("kind:shared-parts".into());
     }
     g
 }
@@ -968,7 +1052,9 @@ pub fn gen_c12(r: &mut Rng, id: usize) -> Group {
             (format!("(map .arr (set \"x\" 0 (set \"x\" {x} (push [] :x {body}))))"), format!("(map .arr (push [] {x} {body}))"))
         }
     };
-    let rec = "{\"name\": \"n\", \"one\": 1, \"k\": [true], \"arr\": [1, 2, \"s\"]}\n{\"name\": \"é\", \"one\": 2, \"arr\": []}\n{\"arr\": [3]}";
+    // (the last record shares its elements with the first one, under another name, number and list: what a binding means for an
+    // element of one record must not be remembered for the equal element of another)
+    let rec = "{\"name\": \"n\", \"one\": 1, \"k\": [true], \"arr\": [1, 2, \"s\"]}\n{\"name\": \"é\", \"one\": 2, \"arr\": []}\n{\"arr\": [3]}\n{\"name\": \"m\", \"one\": 7, \"k\": [false, 0], \"arr\": [2, 1, 1, \"s\"]}";
     let mut c = case(format!("C12-{id}"));
     // position among 1..4 selects: every select must see the same input and parents
     let pos = r.below(3);
@@ -977,7 +1063,7 @@ pub fn gen_c12(r: &mut Rng, id: usize) -> Group {
     }
     c.spec.selects.push(format!("{bound}=bound"));
     c.spec.selects.push(format!("{plain}=plain"));
-    if r.chance(30) {
+    if r.chance(45) {
         // --set forms: variable and macro predefined on the command line
         c.spec.sets.push(format!("pv={x}"));
         c.spec.sets.push(format!("@pm={body}"));
@@ -2171,6 +2257,26 @@ pub fn oracle(prop: &str, g: &Group, obs: &[Obs]) -> Option<String> {
                     }
                 }
                 _ => return Some("collection has the wrong type".into()),
+            }
+            None
+        }
+        "C10" if g.tag == "ctx-unique" => {
+            let (u, n) = (&obs[0], &obs[1]);
+            if u.res != "ok" || n.res != "ok" {
+                return Some(format!("{}: runs gave {} / {}", g.cases[0].id, u.res, n.res));
+            }
+            // the selected values here are small integers, strings, [1], null and ordinals: byte-identical rows are the duplicates
+            let nr = split_rows(&n.out, "\n", false);
+            let mut want: Vec<&Vec<u8>> = vec![];
+            for row in &nr {
+                if !want.contains(&row) {
+                    want.push(row);
+                }
+            }
+            let ur = split_rows(&u.out, "\n", false);
+            let got: Vec<&Vec<u8>> = ur.iter().collect();
+            if got != want {
+                return Some(format!("{}: --unique kept {} rows of {}; dropping exactly the rows whose SELECTED values occurred before keeps {}", g.cases[0].id, got.len(), nr.len(), want.len()));
             }
             None
         }
